@@ -257,7 +257,8 @@ func Apply(ctx context.Context, rc *regclient.RegClient, rSrc ref.Ref, opts ...O
 					dl.mod = deleted
 					return dl, nil
 				}
-				if changed {
+				// the source reader was consumed by the walk, a layer that is pushed below is read back from the repackaged copy
+				if changed || dl.mod == added || dl.mod == replaced {
 					// close to flush remaining content
 					err = tw.Close()
 					if err != nil {
